@@ -419,6 +419,26 @@ Section WithHash.
              | _ => []
              end.
 
+  (* A connection fault at the re-send: the origin drops the (kept-alive) connection after it has
+     read the authenticated request and before answering.  [Some true]: the transport replays
+     the request on a new connection (idempotent method or Idempotency-Key; the body is rewound
+     through the GetBody the middleware installed on the copy) - the origin sees it twice;
+     [Some false]: not replayable, the transport error goes to the caller; [None]: no fault. *)
+  Definition digest_exchange_f (fault : option bool) (replayable : bool) (first : wire_request)
+             (rsp : first_response) (user pass cnonce : bytes) : list wire_request :=
+    first :: match digest_middleware replayable first rsp user pass cnonce with
+             | Resent q => match fault with Some true => [q; q] | _ => [q] end
+             | _ => []
+             end.
+
+  (* One middleware (client-level SetCommonDigestAuth, or a re-used Request) serving a sequence
+     of calls: the code keeps NO state between them - every call is answered from its own
+     challenge alone.  [x] = (replayable, first request, origin's answer, client nonce). *)
+  Definition session_step := (bool * wire_request * first_response * bytes)%type.
+  Definition digest_session (user pass : bytes) (xs : list session_step) : list (list wire_request) :=
+    map (fun x : session_step =>
+           let '(rp, first, rsp, cnonce) := x in digest_exchange rp first rsp user pass cnonce) xs.
+
   (* ---------- RFC 7616, transcribed independently of the code above ---------- *)
 
   (* section 6.1 registry + section 3.3: name -> (hash function, session variant);
